@@ -51,6 +51,18 @@ fn palette() -> Vec<(&'static str, &'static str, bool)> {
         ("a\\b", "backslash", false),
         ("\\x41;", "backslash", false),
         ("a\\", "backslash", false),
+        // sign- or dot-initial tokens that are no numbers, in both cases
+        ("-F", "number-shaped", true),
+        ("-f", "number-shaped", true),
+        ("+E", "number-shaped", true),
+        (".AB", "number-shaped", true),
+        ("-1x", "number-shaped", true),
+        // tokens that start like a number but are none: the reader takes them as symbols
+        ("1abc", "digit-initial-literal", true),
+        ("12foo", "digit-initial-literal", true),
+        ("1A", "digit-initial-literal", true),
+        ("42..1", "digit-initial-literal", true),
+        ("1+", "digit-initial-literal", true),
         // two or more characters that the written form has to escape
         ("a b c", "multi-escape", false),
         ("hello big world", "multi-escape", false),
@@ -187,6 +199,39 @@ struct Generated {
     sample_desc: String,
 }
 
+/// thousands of symbols, each referenced only from a small container of its own, created in one
+/// evaluation during which the heap outgrows its first chunk; collections; then every symbol is
+/// compared with the symbol made again from the same name
+fn generate_mass(rng: &mut Rng) -> Generated {
+    let n = rng.range(1200, 3600);
+    let (hold, unhold, hname) = match rng.below(3) {
+        0 => ("(vector X)", "(vector-ref H 0)", "vector"),
+        1 => ("(list X 'pad)", "(car H)", "list"),
+        _ => ("(let ((s X)) (lambda () s))", "(H)", "closure"),
+    };
+    let make = "(string->symbol (string-append \"mass-\" (number->string i)))";
+    let mut forms: Vec<String> = vec![
+        "(define (t-build n) (let loop ((i 0) (acc '())) (if (< i n) (loop (+ i 1) (cons i acc)) acc)))".into(),
+        format!("(define hv (make-vector {} #f))", n),
+        format!(
+            "(let loop ((i 0)) (if (< i {n}) (begin (vector-set! hv i {hold}) (loop (+ i 1))) 'filled))",
+            n = n,
+            hold = hold.replace('X', make)
+        ),
+        format!("(begin (t-build {}) 'g)", rng.range(500, 4000)),
+        format!("(begin (t-build {}) 'g)", rng.range(500, 4000)),
+    ];
+    forms.push(format!(
+        "(= 0 (let loop ((i 0) (bad 0)) (if (< i {n}) (loop (+ i 1) (if (eq? {unhold} {make}) bad (+ bad 1))) bad)))",
+        n = n,
+        unhold = unhold.replace('H', "(vector-ref hv i)"),
+        make = make
+    ));
+    let what = format!("eq? for each of {} symbols held in a {} of their own, heap grown meanwhile", n, hname);
+    let expects = vec![Expect { form: forms.len() - 1, expected: true, what: "eq? mass symbols-held-in-containers heap-grown".into() }];
+    Generated { forms, expects, sample_desc: what }
+}
+
 fn generate(rng: &mut Rng) -> Generated {
     let pal = palette();
     let mut forms: Vec<String> = vec![
@@ -213,14 +258,21 @@ fn generate(rng: &mut Rng) -> Generated {
         forms.extend(aux);
         let holder = rng.below(9);
         let garbage = format!("(begin (t-build {}) (t-syms {}) 'g)", rng.range(1, 60), rng.range(0, 12));
-        let what = format!(
-            "eq? route1={:?} route2={:?} name-class={} holder={} names-{}",
-            r1,
-            r2,
-            class1,
-            ["global", "vector", "closure", "stack", "dropped", "captured-stack", "vector-in-list", "closure-in-list", "nested-vector"][holder as usize],
-            if names_equal { "equal" } else { "differ" }
-        );
+        // one class of pairs has a signature of its own (it is a known finding on the pinned tree):
+        // the same digit-initial name once spelled in the program text and once converted from a string
+        let literal_vs_converted = class1 == "digit-initial-literal" && names_equal && needs_literal(r1) != needs_literal(r2);
+        let what = if literal_vs_converted {
+            "eq? digit-initial name: literal vs string->symbol".to_string()
+        } else {
+            format!(
+                "eq? route1={:?} route2={:?} name-class={} holder={} names-{}",
+                r1,
+                r2,
+                class1,
+                ["global", "vector", "closure", "stack", "dropped", "captured-stack", "vector-in-list", "closure-in-list", "nested-vector"][holder as usize],
+                if names_equal { "equal" } else { "differ" }
+            )
+        };
         desc.push(what.clone());
         match holder {
             0 => {
@@ -312,7 +364,11 @@ fn generate(rng: &mut Rng) -> Generated {
             expects.push(Expect {
                 form: forms.len() - 1,
                 expected: true,
-                what: format!("string->symbol(symbol->string y) is y route={:?} name-class={}", r1, class1),
+                what: if class1 == "digit-initial-literal" && needs_literal(r1) {
+                    "string->symbol(symbol->string y) is y: digit-initial literal".to_string()
+                } else {
+                    format!("string->symbol(symbol->string y) is y route={:?} name-class={}", r1, class1)
+                },
             });
         }
     }
@@ -423,9 +479,14 @@ fn one_run(seed: u64, run: u64) -> RunResult {
     let mut rng = Rng::new(mix(seed, "C18", run));
     let knobs = random_knobs(&mut rng);
     let mut wl = rng.fork();
-    let g = generate(&mut wl);
+    let mass = run % 16 == 15;
+    let g = if mass { generate_mass(&mut wl) } else { generate(&mut wl) };
     let mut case = Case::new(g.forms.clone());
     case.knobs = knobs;
+    if mass && rng.chance(2, 3) {
+        // slices move the collection points of the production policy across the loop body
+        case.slices = crate::kernel::SlicePlan::Constant(rng.range(200, 9000) as usize + rng.usize(60));
+    }
     let expects: Vec<Value> = g
         .expects
         .iter()
@@ -444,7 +505,16 @@ fn one_run(seed: u64, run: u64) -> RunResult {
     };
     let session_hash = fnv64(case.forms.join("\n").as_bytes());
     for s in 0..3 {
-        let (plan, _family) = if s == 0 { (GcPlan::None, "none") } else { pick_gc_plan(&mut rng, 2000) };
+        // mass sessions run hundreds of thousands of instructions: the production policy (with
+        // slices moving its collection points) twice, then one schedule that is affordable at that size
+        let (plan, _family) = if s == 0 || (mass && s == 1) {
+            (GcPlan::None, "none")
+        } else {
+            pick_gc_plan(&mut rng, if mass { 400_000 } else { 2000 })
+        };
+        if mass && s == 1 {
+            case.slices = crate::kernel::SlicePlan::Constant(rng.range(200, 9000) as usize + rng.usize(60));
+        }
         case.gc = plan;
         case.between_forms_gc = s != 0 && rng.chance(2, 3);
         case.sched_seed = rng.next_u64();
